@@ -677,6 +677,8 @@ func fetchEngine(c *Ctx) {
 				fetchOverlap(c, op)
 			} else if strings.HasPrefix(op, "fetch-zipowner ") {
 				fetchZipOwner(c, op)
+			} else if strings.HasPrefix(op, "fetch-cancel-appended ") {
+				fetchCancelAppended(c, op)
 			}
 		}
 		return
@@ -690,6 +692,8 @@ func fetchEngine(c *Ctx) {
 			fetchOverlap(c, fmt.Sprintf("fetch-overlap %s %s", fm, w))
 		}
 	}
+	fetchCancelAppended(c, "fetch-cancel-appended unpack")
+	fetchCancelAppended(c, "fetch-cancel-appended mirror")
 	for i, which := range []string{"unix3", "both", "unix2", "unix3", "unix3", "both"} {
 		fetchZipOwner(c, fmt.Sprintf("fetch-zipowner %s %s", which, []string{"direct", "copy", "none", "mount"}[i%4]))
 	}
@@ -732,6 +736,68 @@ func fetchEngine(c *Ctx) {
 			fetchExec(c, op)
 		}
 	}
+}
+
+// fetchCancelAppended: the stored ware is W's own tar with one more entry appended (it no longer encodes W); the fetch is
+// cancelled at its k-th poll of the context, for every k: whatever the moment, the unpack / mirror does not answer W —
+// a cancellation ends the operation with an error, it does not end the archive. Recipe: "fetch-cancel-appended <mirror|unpack>".
+func fetchCancelAppended(c *Ctx, op string) {
+	c.Begin(op)
+	what := strings.Fields(op)[1]
+	c.EmitR(op, "skip", "skip")
+	for k := 1; k <= 12; k++ {
+		caseCounter++
+		base := filepath.Join(c.Work, fmt.Sprintf("fca%d", caseCounter))
+		src, wh, wh2 := filepath.Join(base, "src"), filepath.Join(base, "wh"), filepath.Join(base, "wh2")
+		os.MkdirAll(filepath.Join(src, "d", "e"), 0755)
+		os.MkdirAll(wh, 0755)
+		os.MkdirAll(wh2, 0755)
+		os.Setenv("RIO_CACHE", filepath.Join(base, "cache"))
+		os.Setenv("RIO_BASE", filepath.Join(base, "riobase"))
+		os.WriteFile(filepath.Join(src, "a"), []byte("a"), 0644)
+		os.WriteFile(filepath.Join(src, "d", "e", "f"), []byte("f"), 0644)
+		ctx := context.Background()
+		id, err := tartrans.Pack(ctx, "tar", src, api.MustParseFilesetPackFilter(losslessPackStr), whAddr("ca", wh), rio.Monitor{})
+		if err != nil {
+			rmrf(base)
+			return
+		}
+		warePath := storedWarePath("ca", wh, id)
+		stored, _ := os.ReadFile(warePath)
+		os.WriteFile(warePath, alterWare(c, stored, "addentry", nil), 0644)
+		cc := &countdownCtx{Context: ctx, left: k, done: make(chan struct{})}
+		var got api.WareID
+		var gerr error
+		var pan string
+		if what == "mirror" {
+			got, gerr, pan = safeCall(func() (api.WareID, error) {
+				return tartrans.Mirror(cc, id, whAddr("ca", wh2), []api.WarehouseLocation{whAddr("ca", wh)}, rio.Monitor{})
+			})
+		} else {
+			got, gerr, pan = safeCall(func() (api.WareID, error) {
+				return tartrans.Unpack(cc, id, filepath.Join(base, "dst"), api.MustParseFilesetUnpackFilter(losslessUnpackStr), rio.Placement_None, []api.WarehouseLocation{whAddr("ca", wh)}, rio.Monitor{})
+			})
+		}
+		c.H("fetch-cancel-appended:" + what + ":" + strings.Fields(resTok(got, gerr, pan))[0])
+		_, tgtErr := os.Lstat(storedWarePath("ca", wh2, id))
+		shelves, _ := filepath.Glob(filepath.Join(base, "cache", "tar", "fileset", "*", "*", "*"))
+		switch {
+		case pan != "":
+			c.PropFail("fetch-panic", "a cancelled fetch of an altered ware panicked: "+pan, op)
+		case gerr == nil:
+			cl := "fetch-accepted-altered"
+			if what == "mirror" {
+				cl = "mirror-accepted-altered"
+			}
+			c.PropFail(cl, fmt.Sprintf("the stored ware is W with an entry appended; the %s, cancelled at its poll number %d, answered %s without an error", what, k, got), op)
+		case tgtErr == nil:
+			c.PropFail("mirror-committed-altered", "a failed (cancelled) mirror left an object at the target's final address", op)
+		case len(shelves) > 0:
+			c.PropFail("fetch-shelved-altered", "a failed (cancelled) unpack of an altered ware left a shelf in the fileset cache", op)
+		}
+		rmrf(base)
+	}
+	c.Distinct(op)
 }
 
 // fetchZipOwner: a zip ware stores every owner twice (Info-ZIP "unix2" block, 16-bit ids; "unix3" block, 32-bit ids; the
